@@ -283,7 +283,7 @@ def check_C13(ctx):
                     "case": short(cmd, 3000), "implementation": impl, "model": short(model, 300)})
     if rep:
         for v in rep["violations"]:
-            if v["kind"].startswith("target-"):
+            if v["kind"].startswith("target-") or v["kind"] == "enc-after-failure":
                 ctx.violation("target", v)
     if broken and not ctx.violations:
         ctx.violation("theorem", broken, found_input=False)
